@@ -17,12 +17,42 @@ Proof. intros [] [] []; reflexivity. Qed.
 Lemma leak_raises_spec : forall ne, leak_raises ne = ne.
 Proof. intros []; reflexivity. Qed.
 
-(* from here on the generated functions are only used through the facts above *)
-Arguments init_registers : simpl never.
-Arguments use_raises : simpl never.
-Arguments use_pops : simpl never.
-Arguments upd_registers : simpl never.
-Arguments leak_raises : simpl never.
+(* from here on the generated functions are only used through these equations *)
+Definition create' (k : kind) (s : st) : nat * st :=
+  (next s, mkSt (S (next s)) (upd (objs s) (next s) (mkObj k false))
+                (if negb (droppable k) then dict_set (next s) (unused s) else unused s)).
+Definition use_wire' (id : nat) (s : st) : res st :=
+  match objs s id with
+  | None => Err (ENoObj id)
+  | Some o =>
+    if oused o && negb (copyable (okind o)) then Err (EAlreadyUsed id)
+    else if negb (droppable (okind o)) then
+        match dict_pop id (unused s) with
+        | Some u => Ok (mkSt (next s) (upd (objs s) id (mkObj (okind o) true)) u)
+        | None => Err (EKeyError id)
+        end
+      else Ok (mkSt (next s) (upd (objs s) id (mkObj (okind o) true)) (unused s))
+  end.
+Definition update_leaf' (vid nid : nat) (s : st) : res st :=
+  bind (use_wire' nid s) (fun s1 =>
+  match objs s1 vid with
+  | None => Err (ENoObj vid)
+  | Some o =>
+    Ok (mkSt (next s1) (upd (objs s1) vid (mkObj (okind o) false))
+             (if negb (droppable (okind o)) && oused o then dict_set vid (unused s1) else unused s1))
+  end).
+Lemma create_eq : forall k s, create k s = create' k s.
+Proof. intros. unfold create, create'. rewrite init_registers_spec. reflexivity. Qed.
+Lemma use_wire_eq : forall id s, use_wire id s = use_wire' id s.
+Proof.
+  intros. unfold use_wire, use_wire'. destruct (objs s id); [|reflexivity].
+  rewrite use_raises_spec, use_pops_spec. reflexivity.
+Qed.
+Lemma update_leaf_eq : forall v n s, update_leaf v n s = update_leaf' v n s.
+Proof.
+  intros. unfold update_leaf, update_leaf'. rewrite use_wire_eq. destruct (use_wire' n s); [|reflexivity].
+  simpl. destruct (objs a v); [|reflexivity]. rewrite upd_registers_spec. reflexivity.
+Qed.
 
 (* ---------------------------------------------------------------------------- dict lemmas *)
 Lemma dict_mem_In : forall id l, dict_mem id l = true <-> In id l.
@@ -110,7 +140,7 @@ Qed.
 Lemma step_create : forall r s k, Inv r s -> wf_kind k -> Inv (LCreate k :: r) (snd (create k s)).
 Proof.
   intros r s k I W. pose proof (kind_of_fresh _ _ I) as F.
-  destruct I as (N & O & U & K). unfold create. simpl. rewrite init_registers_spec.
+  destruct I as (N & O & U & K). rewrite create_eq. unfold create'. simpl.
   split_inv.
   - simpl. rewrite N. reflexivity.
   - unfold upd. simpl. rewrite N. destruct (id =? nallocs r) eqn:E; [reflexivity | apply O].
@@ -138,10 +168,10 @@ Lemma use_wire_char : forall r s j, Inv r s ->
              e = match kind_of r j with None => ENoObj j | Some _ => EAlreadyUsed j end
   end.
 Proof.
-  intros r s j I. pose proof I as (N & O & U & K). unfold use_wire. rewrite O.
+  intros r s j I. pose proof I as (N & O & U & K). rewrite use_wire_eq. unfold use_wire'. rewrite O.
   destruct (kind_of r j) as [k|] eqn:E.
   2:{ simpl. split; [intros [k [H _]]; congruence | reflexivity]. }
-  simpl. rewrite use_raises_spec, use_pops_spec.
+  simpl.
   destruct (K _ _ E) as (W & L & C1).
   destruct (0 <? uses r j) eqn:Us; simpl.
   - apply Nat.ltb_lt in Us. destruct (copyable k) eqn:C; simpl.
@@ -202,9 +232,8 @@ Proof.
   2:{ simpl. split; [intros [k H]; congruence | reflexivity]. }
   simpl okind. destruct (K _ _ E) as (W & L & C1).
   assert (Jn : j <> nallocs r) by lia.
-  unfold create, update_leaf, use_wire. simpl. rewrite init_registers_spec.
+  rewrite create_eq. unfold create'. rewrite update_leaf_eq. unfold update_leaf', use_wire'. simpl.
   unfold upd at 1. rewrite N, Nat.eqb_refl. simpl.
-  rewrite use_raises_spec, use_pops_spec. simpl.
   (* the fresh object is popped iff it was registered *)
   set (u1 := if negb (droppable k) then dict_set (nallocs r) (unused s) else unused s).
   assert (P : exists u2, (if negb (droppable k) then match dict_pop (nallocs r) u1 with Some u => Ok (mkSt (S (nallocs r)) (upd (upd (objs s) (nallocs r) (mkObj k false)) (nallocs r) (mkObj k true)) u) | None => Err (EKeyError (nallocs r)) end else Ok (mkSt (S (nallocs r)) (upd (upd (objs s) (nallocs r) (mkObj k false)) (nallocs r) (mkObj k true)) u1))
@@ -220,7 +249,7 @@ Proof.
       + apply dict_pop_None in Pp. exfalso. apply Pp. apply dict_set_In. auto. }
   destruct P as [u2 [P1 P2]]. rewrite P1. simpl. clear P1.
   unfold upd at 1 2. destruct (j =? nallocs r) eqn:Ej; [apply Nat.eqb_eq in Ej; contradiction|].
-  rewrite O, E. simpl. rewrite upd_registers_spec.
+  rewrite O, E. simpl.
   split; [exists k; reflexivity|].
   split_inv; simpl in *.
   - reflexivity.
@@ -275,6 +304,9 @@ Proof.
   induction a as [|o a IH]; intros b s; simpl; [reflexivity|].
   destruct (step o s); simpl; [apply IH | reflexivity].
 Qed.
+
+Lemma lrun_single : forall o s, lrun [o] s = step o s.
+Proof. intros. simpl. destruct (step o s); reflexivity. Qed.
 
 (** all prefixes of a script are allowed *)
 Fixpoint legal (r : list lop) (ops : list lop) : Prop :=
@@ -351,9 +383,10 @@ Lemma reassign_resets_lemma : forall ops s id k, wf_ops ops -> lrun ops st0 = Ok
   exists s', lrun (ops ++ [LReassign id]) st0 = Ok s' /\ uses (rev (ops ++ [LReassign id])) id = 0
              /\ kind_of (rev (ops ++ [LReassign id])) id = Some k.
 Proof.
-  intros ops s id k W H E. rewrite lrun_app, H. simpl bind.
+  intros ops s id k W H E. rewrite lrun_app, H.
+  change (bind (Ok s) (lrun [LReassign id])) with (lrun [LReassign id] s). rewrite lrun_single.
   apply lrun_inv in H; [|exact W]. destruct H as [_ I].
-  pose proof (step_reassign _ _ id I) as G. simpl lrun. destruct (step (LReassign id) s) as [s'|e].
+  pose proof (step_reassign _ _ id I) as G. destruct (step (LReassign id) s) as [s'|e].
   - exists s'. split; [reflexivity|]. rewrite rev_app_distr. simpl.
     pose proof (kind_of_lt _ _ _ _ I E) as L.
     assert (id =? nallocs (rev ops) = false) by (apply Nat.eqb_neq; lia).
@@ -373,12 +406,12 @@ Proof.
   intros ops s W H. apply lrun_inv in H; [|exact W]. destruct H as [_ (N & O & U & K)].
   unfold end_check. rewrite leak_raises_spec. destruct (unused s) as [|a l] eqn:Eu; simpl negb; cbv iota.
   - assert (NoLeak : ~ exists id, leaked (rev ops) id).
-    { intros [id L]. apply U in L. rewrite Eu in L. destruct L. }
+    { intros [id L]. apply U in L. destruct L. }
     repeat split; try tauto.
     + intros [id [Hd _]]. discriminate.
     + intros e He. discriminate.
-  - assert (Hl : In (last (a :: l) 0) (unused s)).
-    { rewrite Eu. destruct (exists_last (l := a :: l)) as [l' [x Hx]]; [discriminate|].
+  - assert (Hl : In (last (a :: l) 0) (a :: l)).
+    { destruct (exists_last (l := a :: l)) as [l' [x Hx]]; [discriminate|].
       rewrite Hx. rewrite last_last. apply in_or_app. right. left. reflexivity. }
     apply U in Hl. fold (leaked (rev ops) (last (a :: l) 0)) in Hl.
     repeat split.
@@ -402,14 +435,30 @@ Definition rejects (ovr : list (string * body)) (m : string) : bool :=
   end.
 
 Lemma rejects_sound : forall ovr m, rejects ovr m = true ->
-  forall xs arg fl, construct ovr xs = Some fl -> contents fl = xs /\ call ovr m arg fl = ORaised fl.
+  forall xs arg fl, construct ovr xs = Some fl -> call ovr m arg fl = ORaised fl.
 Proof.
   intros ovr m R xs arg fl C. unfold rejects in R. unfold construct, call in C.
   destruct (lookup m ovr) as [[| | |]|] eqn:Lm; try discriminate.
-  - (* BRaise *) split.
-    + destruct (lookup "__init__" ovr) as [[| | |]|]; simpl in C; inversion C; reflexivity.
-    + unfold call. rewrite Lm. reflexivity.
-  - (* BInitGuard *) destruct (lookup "__init__" ovr) as [[| | |]|] eqn:Li; try discriminate.
-    simpl in C. inversion C; subst fl. split; [reflexivity|].
-    unfold call. rewrite Lm. reflexivity.
+  - unfold call. rewrite Lm. reflexivity.
+  - destruct (lookup "__init__" ovr) as [[| | |]|] eqn:Li; try discriminate.
+    simpl in C. inversion C; subst fl. unfold call. rewrite Lm. reflexivity.
+Qed.
+
+(** the constructor installs the given elements *)
+Definition init_ok (ovr : list (string * body)) : bool :=
+  match lookup "__init__" ovr with None => true | Some BInitGuard => true | _ => false end.
+Lemma construct_contents : forall ovr xs, init_ok ovr = true ->
+  exists fl, construct ovr xs = Some fl /\ contents fl = xs.
+Proof.
+  intros ovr xs I. unfold init_ok in I. unfold construct, call.
+  destruct (lookup "__init__" ovr) as [[| | |]|]; try discriminate; simpl; eexists; split; reflexivity.
+Qed.
+
+Lemma frozen_total_lemma : forall ovr muts, init_ok ovr = true -> forallb (rejects ovr) muts = true ->
+  forall xs, exists fl, construct ovr xs = Some fl /\ contents fl = xs /\
+    forall m arg, In m muts -> call ovr m arg fl = ORaised fl.
+Proof.
+  intros ovr muts I F xs. destruct (construct_contents ovr xs I) as [fl [C1 C2]].
+  exists fl. repeat split; auto. intros m arg Hm. rewrite forallb_forall in F.
+  eapply rejects_sound; [apply F; exact Hm | exact C1].
 Qed.
